@@ -15,6 +15,7 @@ the clock monotone).  `runCtx true` is the CURRENT code (esrally/client/context.
   (structured concurrency: `Composite.run_stream` awaits its sub-streams).
 * `outer_span`         — the full statement, for the current code: any tree, any number of tasks and clients, any
   admissible interleaving.
+* `exit_kind_irrelevant` — contexts left by an exception (failed / cancelled sub-requests) propagate like any other.
 * `sub_request_exact`  — every trace (stated for both code versions).
 * `client_isolation`   — every trace (stated for both code versions).
 * historical (`…_pinned`, code before 65587fe): the full statement was **false** (`outer_span_false_pinned`,
@@ -103,6 +104,81 @@ theorem outer_span : OuterSpan true := by
   intro evs s c r hrun hl hc hset
   exact pinv_settled (pinv_runFrom pinv_init hrun hl) hc hset
 
+/-! ### failing requests: exits with an exception -/
+
+/-- forget how the contexts were left -/
+def normalExits : List CEv → List CEv
+  | [] => []
+  | .close τ _ :: es => .close τ false :: normalExits es
+  | e :: es => e :: normalExits es
+
+/-- **exit_kind_irrelevant**: a request context left by an exception (a sub-request that timed out or raised an
+    `ApiError`, a cancelled stream) hands its start and end over to the enclosing context exactly like one left
+    normally: replacing every exceptional exit by a normal one changes nothing at all.  Together with
+    `outer_span` (which quantifies over all traces, exceptional exits and failed wire requests included): the
+    timing of a logical request spans the failed sub-requests too. -/
+theorem exit_kind_irrelevant (fx : Bool) (evs : List CEv) : runCtx fx evs = runCtx fx (normalExits evs) := by
+  unfold runCtx
+  generalize init = s
+  induction evs generalizing s with
+  | nil => rfl
+  | cons e es ih =>
+    cases e with
+    | close τ exc =>
+      simp only [normalExits, runFrom]
+      have : step fx s (.close τ exc) = step fx s (.close τ false) := rfl
+      rw [this]
+      cases step fx s (.close τ false) with
+      | ok s' => exact ih s'
+      | error _ => rfl
+    | client c => simp only [normalExits, runFrom]; cases step fx s (.client c) with
+      | ok s' => exact ih s'
+      | error _ => rfl
+    | spawn p c => simp only [normalExits, runFrom]; cases step fx s (.spawn p c) with
+      | ok s' => exact ih s'
+      | error _ => rfl
+    | open_ τ c => simp only [normalExits, runFrom]; cases step fx s (.open_ τ c) with
+      | ok s' => exact ih s'
+      | error _ => rfl
+    | wireStart τ t => simp only [normalExits, runFrom]; cases step fx s (.wireStart τ t) with
+      | ok s' => exact ih s'
+      | error _ => rfl
+    | wireEnd τ t => simp only [normalExits, runFrom]; cases step fx s (.wireEnd τ t) with
+      | ok s' => exact ih s'
+      | error _ => rfl
+
+/-- composite of three sequential raw requests [10,11], [12,13], [14,17]; the third one times out at 17 (the
+    exception hook records the end, its `RequestTiming` context is left by the exception): the logical request
+    spans 10 … 17. -/
+def exFailSeq : List CEv :=
+  [.client 0, .open_ 0 10,
+   .open_ 0 11, .wireStart 0 10, .wireEnd 0 11, .close 0 false,
+   .open_ 0 12, .wireStart 0 12, .wireEnd 0 13, .close 0 false,
+   .open_ 0 13, .wireStart 0 14, .wireEnd 0 17, .close 0 true]
+
+example : chk true exFailSeq (fun s => !s.late && settled s 10 &&
+    view s 10 == some (some 10, some 17, some 10, some 17)) = true := by decide
+
+/-- r0 = [5,6], then two concurrent streams: a1 = [10,12] succeeds, b1 = [11,15] times out: 5 … 15 -/
+def exFailConc : List CEv :=
+  [.client 0, .open_ 0 10, .open_ 0 11, .wireStart 0 5, .wireEnd 0 6, .close 0 false,
+   .spawn 0 1, .spawn 0 2, .open_ 1 12, .open_ 2 13, .wireStart 1 10, .wireStart 2 11,
+   .wireEnd 1 12, .close 1 false, .wireEnd 2 15, .close 2 true]
+
+example : chk true exFailConc (fun s => !s.late && settled s 10 &&
+    view s 10 == some (some 5, some 15, some 5, some 15)) = true := by decide
+
+/-- before fix e1fd341 a stream that was still in flight when its sibling failed was not awaited by
+    `Composite.run_stream` (it was cancelled, or — when the failure surfaced in the final `gather` — simply kept
+    running): it left its context only after the logical request had been recorded and exited.  That is the `late` case which `outer_span`
+    excludes by hypothesis, and indeed the recorded start (11) misses the sibling's earlier start (10); the
+    correspondence check reports such runs under the oracle class `cancelled-sibling-in-flight`
+    (here: a1 = [10, unwound at 15], b1 = [11,15] times out; the outer context is read right after `close 2 true`). -/
+example : chk true
+    [.client 0, .open_ 0 10, .spawn 0 1, .spawn 0 2, .open_ 1 12, .open_ 2 13, .wireStart 1 10, .wireStart 2 11,
+     .wireEnd 2 15, .close 2 true, .close 0 false, .wireEnd 1 15, .close 1 true]
+    (fun s => s.late && view s 10 == some (some 10, some 15, some 10, some 15)) = true := by decide
+
 /-! ### historical: the code before fix 65587fe (`runCtx false`)
 
 Before the fix `update_request_start` kept the first value written and `update_request_end` the last one, also
@@ -115,7 +191,7 @@ traces are regression cases of the correspondence check (corpus/C18) and come ou
     Pre-fix, the outer context then held start 2 — the earliest start is 1. -/
 def wStart : List CEv :=
   [.client 0, .open_ 0 10, .spawn 0 1, .spawn 0 2, .open_ 1 11, .open_ 2 12,
-   .wireStart 1 1, .wireStart 2 2, .wireEnd 2 3, .close 2, .wireEnd 1 5, .close 1]
+   .wireStart 1 1, .wireStart 2 2, .wireEnd 2 3, .close 2 false, .wireEnd 1 5, .close 1 false]
 
 theorem wStart_facts_pinned : chk false wStart (fun s =>
     !s.late && !s.emptyClose && settled s 10 && view s 10 == some (some 2, some 5, some 1, some 5)) = true := by
@@ -142,7 +218,7 @@ theorem outer_span_false_pinned : ¬ OuterSpan false := by
     pre-fix, the outer context ended at 3. -/
 def wEnd : List CEv :=
   [.client 0, .open_ 0 10, .spawn 0 1, .spawn 0 2, .open_ 1 11, .open_ 2 12,
-   .wireStart 1 1, .wireStart 2 2, .wireEnd 2 3, .wireEnd 1 5, .close 1, .close 2]
+   .wireStart 1 1, .wireStart 2 2, .wireEnd 2 3, .wireEnd 1 5, .close 1 false, .close 2 false]
 
 theorem wEnd_facts_pinned : chk false wEnd (fun s =>
     !s.late && !s.emptyClose && settled s 10 && view s 10 == some (some 1, some 3, some 1, some 5)) = true := by
@@ -166,7 +242,7 @@ theorem outer_span_false_end_pinned :
 /-- Witness 3 (no concurrency at all): a nested context in which no wire request was issued exits — pre-fix its
     `None`s were written into the parent: the parent's end became `None` and its start could never be set again. -/
 def wEmpty : List CEv :=
-  [.client 0, .open_ 0 10, .open_ 0 11, .close 0, .wireStart 0 1, .wireEnd 0 2]
+  [.client 0, .open_ 0 10, .open_ 0 11, .close 0 false, .wireStart 0 1, .wireEnd 0 2]
 
 theorem wEmpty_facts_pinned : chk false wEmpty (fun s =>
     !s.late && s.emptyClose && settled s 10 && wEmpty.all (fun e => !e.isSpawn) &&
@@ -210,8 +286,8 @@ example : chk true wEmpty (fun s => !s.late && settled s 10 &&
 /-- two clients interleaved, each with nested sequential sub-requests three levels deep -/
 def exSeq : List CEv :=
   [.client 0, .client 1, .open_ 0 10, .open_ 1 20, .open_ 0 11, .wireStart 0 1, .open_ 1 21, .wireStart 1 1,
-   .wireEnd 0 2, .open_ 0 12, .wireStart 0 3, .wireEnd 1 4, .wireEnd 0 4, .wireEnd 0 6, .close 0, .close 0,
-   .close 1, .open_ 0 13, .wireStart 0 7, .wireEnd 0 9, .close 0, .wireStart 1 9, .wireEnd 1 10]
+   .wireEnd 0 2, .open_ 0 12, .wireStart 0 3, .wireEnd 1 4, .wireEnd 0 4, .wireEnd 0 6, .close 0 false, .close 0 false,
+   .close 1 false, .open_ 0 13, .wireStart 0 7, .wireEnd 0 9, .close 0 false, .wireStart 1 9, .wireEnd 1 10]
 
 example : chk true exSeq (fun s => !s.late && settled s 10 && settled s 20 && settled s 11 &&
     view s 10 == some (some 1, some 9, some 1, some 9) &&
@@ -231,8 +307,8 @@ example : chk true wStart (fun s => isLeaf s 11 && isLeaf s 12 && !isLeaf s 10 &
 /-- client 0 (tasks 0,1,2) of `wStart` interleaved with a second client: the projection is `wStart` itself -/
 def exTwo : List CEv :=
   [.client 0, .client 7, .open_ 7 70, .open_ 0 10, .spawn 0 1, .wireStart 7 0, .spawn 0 2, .open_ 1 11,
-   .open_ 2 12, .wireStart 1 1, .spawn 7 8, .wireStart 2 2, .wireEnd 8 2, .wireEnd 2 3, .close 2, .wireEnd 1 5,
-   .close 1, .close 7]
+   .open_ 2 12, .wireStart 1 1, .spawn 7 8, .wireStart 2 2, .wireEnd 8 2, .wireEnd 2 3, .close 2 false, .wireEnd 1 5,
+   .close 1 false, .close 7 false]
 
 example : exTwo.filter (fun e => (fun τ => decide (τ < 7)) e.task) = wStart := by decide
 example : chk true exTwo (fun s => view s 70 == some (some 0, some 2, some 0, some 2) &&
